@@ -118,16 +118,14 @@ func isFullUnwrap(fn *ssa.Function) bool {
 	for _, r := range rets {
 		v := r.Results[0]
 		// must be guarded by !ok of TypeAssert(v) to an interface with Unwrap
-		g := core.GuardedBy(r, func(f core.Fact) bool {
-			if f.Op != token.ILLEGAL || !f.Neg {
-				return false
-			}
-			ex, ok := f.X.(*ssa.Extract)
+		// okOf: b is the comma-ok result of asserting x to an interface that has Unwrap
+		okOf := func(b, x ssa.Value) bool {
+			ex, ok := b.(*ssa.Extract)
 			if !ok || ex.Index != 1 {
 				return false
 			}
 			ta, ok := ex.Tuple.(*ssa.TypeAssert)
-			if !ok || ta.X != v {
+			if !ok || !(ta.X == x || core.SameVal(ta.X, x)) {
 				return false
 			}
 			it, ok := ta.AssertedType.Underlying().(*types.Interface)
@@ -140,6 +138,27 @@ func isFullUnwrap(fn *ssa.Function) bool {
 				}
 			}
 			return false
+		}
+		g := core.GuardedBy(r, func(f core.Fact) bool {
+			if f.Op != token.ILLEGAL || !f.Neg {
+				return false
+			}
+			if okOf(f.X, v) {
+				return true
+			}
+			// "w, ok := ch.(W); for ok { ch = w.Unwrap(); w, ok = ch.(W) }": ok and ch are φ-nodes of one block,
+			// and on every incoming edge ok is the assertion result for that edge's ch
+			okPhi, isP1 := f.X.(*ssa.Phi)
+			vPhi, isP2 := v.(*ssa.Phi)
+			if !isP1 || !isP2 || okPhi.Block() != vPhi.Block() || len(okPhi.Edges) != len(vPhi.Edges) {
+				return false
+			}
+			for i := range okPhi.Edges {
+				if !okOf(okPhi.Edges[i], vPhi.Edges[i]) {
+					return false
+				}
+			}
+			return true
 		})
 		if !g {
 			return false
